@@ -389,6 +389,15 @@ def field_values(fd):
     return st.one_of(gen.conforming(t), gen.conforming(t), st.sampled_from(["abc", None, {"t": "list", "v": ["x"]}, {"t": "obj"}, -5, 0, "", "12345"]))
 
 
+def _equal_twin(v):
+    """a value that compares equal to v but is not the same value (True/1, 1/1.0, 0/False): no alias conflict, yet it converts differently"""
+    if v is True or v is False:
+        return int(v)
+    if isinstance(v, int):
+        return bool(v) if v in (0, 1) else {"t": "float", "v": repr(float(v))}
+    return v
+
+
 def inputs_for(d, options=None):
     """strategy: ValueSpec of a dict input for decl d"""
     cands = key_candidates(d, options)
@@ -413,7 +422,8 @@ def inputs_for(d, options=None):
                 if k in used:
                     continue
                 used.add(k)
-                v = val if (j == 0 or draw(st.booleans())) else draw(field_values(fd))
+                how2 = "same" if j == 0 else draw(st.sampled_from(["same", "same", "twin", "fresh", "fresh"]))
+                v = val if how2 == "same" else _equal_twin(val) if how2 == "twin" else draw(field_values(fd))
                 pairs.append([k, v])
         for _ in range(draw(st.sampled_from([0, 0, 0, 1, 2]))):
             k = draw(st.sampled_from([k for (n, k) in cands if n is None]))
